@@ -10,7 +10,8 @@
 (***************************************************************************)
 EXTENDS EFSyntax, Json
 
-CONSTANT Tier
+CONSTANT Tier,
+         Seed      \* >= 1: shifts which part of a sampled family is taken (1 = the default sample)
 
 VARIABLE row
 vars == <<row>>
@@ -62,7 +63,7 @@ Next ==
         /\ \E k2 \in 1..NKinds : row' = Row(row.shape, <<row.k1, k2>>)
      \/ /\ row.shape \in {"nest3", "nestseq"}
         /\ \E k2 \in 1..NKinds, k3 \in 1..NKinds :
-             /\ (Tier = "thorough" \/ (row.k1 + 3 * k2 + 5 * k3) % 11 = 0)
+             /\ (Tier = "thorough" \/ (row.k1 + 3 * k2 + 5 * k3 + Seed - 1) % 11 = 0)
              /\ row' = Row(row.shape, <<row.k1, k2, k3>>)
 
 Spec == Init /\ [][Next]_vars
